@@ -227,6 +227,27 @@ def batch(core, mod, prop, seed, n, args, scratch, t0):
             known_seen.setdefault(k["id"], (k["text"], idx))
         else:
             new_violations.append((idx, v))
+    # every listed known finding is probed directly through its committed replay, so that its line is printed on
+    # every run as long as the defect is there (and disappears once it has been repaired), whether or not the
+    # sampled histories happened to meet it
+    for k in core.known_findings(prop):
+        if k.get("status") != "known" or k["id"] in known_seen:
+            continue
+        for rp in (k.get("replay") or "").split():
+            try:
+                with open(os.path.join(HERE, rp)) as f:
+                    rep = json.load(f)
+            except OSError:
+                continue
+            out = core.execute_isolated(mod, rep["spec"])
+            sig = core.outcome_sig(out)
+            hit = any(fid == k["id"] for fid, _ in (out.get("known") or []))
+            if not hit and sig is not None:
+                m = core.match_known(prop, sig, (out.get("violation") or {}).get("detail"))
+                hit = m is not None and m["id"] == k["id"]
+            if hit:
+                known_seen[k["id"]] = (k["text"], "replay " + rp)
+                break
     for fid in sorted(known_seen):
         text, idx = known_seen[fid]
         print(f"KNOWN-FINDING: property={prop} {fid}: {text} (first seen in run {idx})")
